@@ -135,6 +135,218 @@ theorem dataReceivedRECORDS_agrees (fuel : Nat) (E : C06.Env) (h : Store) (c : C
   | none => simp at k2 k3 ⊢; exact ⟨k2, k3⟩
   | some e => simp at k2 k3 ⊢; exact ⟨k2, k3⟩
 
+/-! ## consumer mode (passive consumer callback), `close`, `connectionLost` -/
+
+/-- `_writeToConsumer(record)` = `C06.writeToConsumer`: `consumer.write(record)`, the byte counter, and AT the threshold
+    (`written >= expected`, only when `expected` was given) `unregisterProducer()`, the three attributes cleared, and the
+    Deferred — taken BEFORE `disconnectConsumer()` — fired with the byte count -/
+theorem writeToConsumer_agrees (fuel : Nat) (E : C06.Env) (h : Store) (c : C06.Conn) (R : RelConn E h c)
+    (k : C06.Consumer) (hk : c.app.consumer = some k) (hcb : k.cb = none) (hfc : c.app.fcConsumer = false) (r : Bytes) :
+    let o := exec (fuel + 2) (envT E) tbl_Connection "_writeToConsumer" [.bytes r] h
+    RelConn E o.heap { c with app := (C06.writeToConsumer c.app k r false).1 } ∧
+      (C06.writeToConsumer c.app k r false).2 = [] ∧ o.calls = wtcCalls k r ∧ o.exc = none := by
+  have key := callM_writeToConsumer fuel E h c R k hk hcb hfc r []
+  simp only at key
+  intro o
+  simp only [o, exec]
+  generalize callM _ _ _ _ _ _ _ = w at key
+  obtain ⟨h1, cs1, res⟩ := w
+  obtain ⟨k1, k2, k3, k4⟩ := key
+  simp only at k1 k3 k4
+  subst k3 k4
+  exact ⟨k1, k2, by simp, rfl⟩
+
+/-- `recordReceived(record)` with a consumer attached = `C06.recordReceived`: the record goes to the consumer, never to the queue -/
+theorem recordReceived_consumer_agrees (fuel : Nat) (E : C06.Env) (h : Store) (c : C06.Conn) (R : RelConn E h c)
+    (k : C06.Consumer) (hk : c.app.consumer = some k) (hcb : k.cb = none) (hfc : c.app.fcConsumer = false) (r : Bytes) :
+    let o := exec (fuel + 3) (envT E) tbl_Connection "recordReceived" [.bytes r] h
+    RelConn E o.heap { c with app := C06.recordReceived c.app r } ∧ o.calls = wtcCalls k r ∧ o.exc = none := by
+  have key := callM_writeToConsumer fuel E h c R k hk hcb hfc r []
+  simp only at key
+  have hc1 : h.get "_consumer" = some (.ref "Consumer" k.cid) := by
+    have := R.cons; rw [hk] at this; exact this.1
+  intro o
+  simp only [o, exec]
+  rw [callM]
+  tr_eval_nc [tbl_Connection, m_Connection_recordReceived, hc1]
+  generalize callM _ _ _ _ _ _ _ = w at key
+  obtain ⟨h1, cs1, res⟩ := w
+  obtain ⟨k1, k2, k3, k4⟩ := key
+  simp only at k1 k3 k4
+  subst k3 k4
+  have hm : C06.recordReceived c.app r = (C06.writeToConsumer c.app k r false).1 := by
+    simp only [C06.recordReceived, hk]
+    generalize C06.writeToConsumer c.app k r false = p at k2 ⊢
+    obtain ⟨a1, fs⟩ := p
+    simp only at k2
+    subst k2
+    exact C06.settle_nil a1
+  rw [hm]
+  simp
+  exact k1
+
+/-- `close()` = `C06.close`: `transport.loseConnection()` first, then every waiting read is failed with
+    `ConnectionClosed`, oldest first, for every number of waiting reads; queue and consumer untouched -/
+theorem close_agrees (fuel : Nat) (E : C06.Env) (h : Store) (c : C06.Conn) (R : RelConn E h c)
+    (hf : c.app.waiting.length + 2 ≤ fuel) :
+    let o := exec fuel (envT E) tbl_Connection "close" [] h
+    RelConn E o.heap { c with app := C06.close c.app } ∧
+    o.calls = ⟨"transport", "loseConnection", []⟩ :: c.app.waiting.map errCall ∧ o.exc = none := by
+  obtain ⟨g, rfl⟩ : ∃ g, fuel = g + 2 := ⟨fuel - 2, by omega⟩
+  obtain ⟨hb, hsn, hrn, hsb, hrb, htr, hin, hw, hc⟩ := R
+  intro o
+  simp only [o, exec]
+  rw [callM]
+  simp only [tbl_Connection, close_shape, List.length_nil, if_true, bindParams, List.zip_nil_right, List.foldl_nil]
+  simp only [execB, execS]
+  tr_eval_nc [htr]
+  have L := errback_loop (envT E) rfl rfl (callM (envT E) tbl_Connection (g + 1)) (g + 2) c.app.waiting (g + 2) h []
+    [⟨"transport", "loseConnection", []⟩] hw (by omega)
+  simp only at L
+  generalize whileLoop _ _ _ _ = w at L ⊢
+  obtain ⟨⟨h1, l1, cs1⟩, fl⟩ := w
+  obtain ⟨e1, e2, e3, e4⟩ := L
+  simp only at e1 e2 e3 e4
+  subst e1 e2
+  obtain ⟨f1, f2, f3⟩ := foldl_failRead_fields c.app.waiting ({ c.app with waiting := [] }.emit [.lose])
+  simp
+  refine ⟨?_, ?_, ?_, ?_, ?_, ?_, ?_, ?_, ?_⟩
+  · rw [e4 _ (by decide)]; exact hb
+  · rw [e4 _ (by decide)]; exact hsn
+  · rw [e4 _ (by decide)]; exact hrn
+  · rw [e4 _ (by decide)]; exact hsb
+  · rw [e4 _ (by decide)]; exact hrb
+  · rw [e4 _ (by decide)]; exact htr
+  · rw [e4 _ (by decide)]; simp only [C06.close]; rw [f1]; exact hin
+  · rw [e3]; simp only [C06.close]; rw [f2]; rfl
+  · simp only [C06.close]; rw [f3]
+    show RelCons h1 c.app.consumer
+    cases hcc : c.app.consumer with
+    | none => rw [hcc] at hc; exact ⟨by rw [e4 _ (by decide)]; exact hc.1, by rw [e4 _ (by decide)]; exact hc.2⟩
+    | some k =>
+      rw [hcc] at hc
+      exact ⟨by rw [e4 _ (by decide)]; exact hc.1, by rw [e4 _ (by decide)]; exact hc.2.1,
+        by rw [e4 _ (by decide)]; exact hc.2.2.1, by rw [e4 _ (by decide)]; exact hc.2.2.2⟩
+
+/-- `connectionLost(reason)` after negotiation (`_negotiation_d` is `None`) = `C06.connectionLost`: `setTimeout(None)`,
+    every waiting read failed (oldest first, any number), nothing sent to the negotiation Deferred, the consumer's
+    Deferred — present iff `expected` was given — errbacked with `ConnectionClosed`; `reason` is never looked at -/
+theorem connectionLost_agrees (fuel : Nat) (E : C06.Env) (h : Store) (c : C06.Conn) (R : RelConn E h c) (reason : Val)
+    (hnd : h.get "_negotiation_d" = some .none) (hf : c.app.waiting.length + 2 ≤ fuel) :
+    let o := exec fuel (envT E) tbl_Connection "connectionLost" [reason] h
+    RelConn E o.heap { c with app := C06.connectionLost c.app } ∧
+    o.calls = ⟨"self", "setTimeout", [.none]⟩ :: c.app.waiting.map errCall ++
+      (match c.app.consumer with
+       | some ⟨_, _, some _, _⟩ => [⟨"_consumer_deferred", "errback", [.obj "ConnectionClosed" []]⟩]
+       | _ => []) ∧
+    o.exc = none := by
+  obtain ⟨g, rfl⟩ : ∃ g, fuel = g + 2 := ⟨fuel - 2, by omega⟩
+  obtain ⟨hb, hsn, hrn, hsb, hrb, htr, hin, hw, hc⟩ := R
+  intro o
+  simp only [o, exec]
+  rw [callM]
+  simp only [tbl_Connection, connectionLost_shape, List.length_cons, List.length_nil, if_true]
+  simp only [execB, execS]
+  tr_eval_nc []
+  have L := errback_loop (envT E) rfl rfl (callM (envT E) tbl_Connection (g + 1)) (g + 2) c.app.waiting (g + 2) h
+    [("reason", reason)] [⟨"self", "setTimeout", [.none]⟩] hw (by omega)
+  simp only at L
+  generalize whileLoop _ _ _ _ = w at L ⊢
+  obtain ⟨⟨h1, l1, cs1⟩, fl⟩ := w
+  obtain ⟨e1, e2, e3, e4⟩ := L
+  simp only at e1 e2 e3 e4
+  subst e1 e2
+  have hnd1 : h1.get "_negotiation_d" = some .none := by rw [e4 _ (by decide)]; exact hnd
+  obtain ⟨f1, f2, f3⟩ := foldl_failRead_fields c.app.waiting { c.app with waiting := [] }
+  have hmI : (C06.connectionLost c.app).inbound = c.app.inbound := by
+    simp only [C06.connectionLost]; split <;> simp [C06.App.emit, f1]
+  have hmW : (C06.connectionLost c.app).waiting = [] := by
+    simp only [C06.connectionLost]; split <;> simp [C06.App.emit, f2]
+  have hmC : (C06.connectionLost c.app).consumer = c.app.consumer := by
+    simp only [C06.connectionLost]; split <;> simp [C06.App.emit, f3]
+  have fin : ∀ h2 : Store, (∀ a, "_waiting_reads" ≠ a → "_negotiation_d" ≠ a → h2.get a = h1.get a) →
+      h2.get "_waiting_reads" = some (.list []) →
+      RelConn E h2 { c with app := C06.connectionLost c.app } := by
+    intro h2 q qw
+    have q' : ∀ a, "_waiting_reads" ≠ a → "_negotiation_d" ≠ a → h2.get a = h.get a :=
+      fun a a1 a2 => by rw [q a a1 a2, e4 a a1]
+    refine ⟨?_, ?_, ?_, ?_, ?_, ?_, ?_, ?_, ?_⟩
+    · rw [q' _ (by decide) (by decide)]; exact hb
+    · rw [q' _ (by decide) (by decide)]; exact hsn
+    · rw [q' _ (by decide) (by decide)]; exact hrn
+    · rw [q' _ (by decide) (by decide)]; exact hsb
+    · rw [q' _ (by decide) (by decide)]; exact hrb
+    · rw [q' _ (by decide) (by decide)]; exact htr
+    · rw [q' _ (by decide) (by decide)]; show _ = some (Val.list (List.map Val.bytes (C06.connectionLost c.app).inbound)); rw [hmI]; exact hin
+    · rw [qw]; show _ = some (Val.list (List.map encReader (C06.connectionLost c.app).waiting)); rw [hmW]; rfl
+    · show RelCons h2 (C06.connectionLost c.app).consumer
+      rw [hmC]
+      cases hcc : c.app.consumer with
+      | none => rw [hcc] at hc; exact ⟨by rw [q' _ (by decide) (by decide)]; exact hc.1, by rw [q' _ (by decide) (by decide)]; exact hc.2⟩
+      | some k =>
+        rw [hcc] at hc
+        exact ⟨by rw [q' _ (by decide) (by decide)]; exact hc.1, by rw [q' _ (by decide) (by decide)]; exact hc.2.1,
+          by rw [q' _ (by decide) (by decide)]; exact hc.2.2.1, by rw [q' _ (by decide) (by decide)]; exact hc.2.2.2⟩
+  cases hcc : c.app.consumer with
+  | none =>
+    rw [hcc] at hc
+    have hcd1 : h1.get "_consumer_deferred" = some .none := by rw [e4 _ (by decide)]; exact hc.2
+    tr_eval_nc [lostTail, m_Connection_connectionLost, hnd1, hcd1]
+    exact fin _ (fun a a1 a2 => by simp [get_set, a2]) (by simp [get_set, e3])
+  | some k =>
+    obtain ⟨cid, written, expected, cb⟩ := k
+    rw [hcc] at hc
+    cases expected with
+    | none =>
+      have hcd1 : h1.get "_consumer_deferred" = some .none := by rw [e4 _ (by decide)]; exact hc.2.2.2
+      tr_eval_nc [lostTail, m_Connection_connectionLost, hnd1, hcd1]
+      exact fin _ (fun a a1 a2 => by simp [get_set, a2]) (by simp [get_set, e3])
+    | some n =>
+      have hcd1 : h1.get "_consumer_deferred" = some (.ref "ConsumerDeferred" cid) := by rw [e4 _ (by decide)]; exact hc.2.2.2
+      tr_eval_nc [lostTail, m_Connection_connectionLost, hnd1, hcd1]
+      exact fin _ (fun a a1 a2 => by simp [get_set, a2]) (by simp [get_set, e3])
+
+/-- `_deliverRecords()` = the model's `deliver` frame run to completion, for every queue length and every number of
+    waiting reads whose callbacks are not attached yet (`cb = none`: the Deferred stores the result): records and
+    Deferreds are paired oldest-with-oldest, `d.callback(r)` in that order, until one of the two deques is empty -/
+theorem deliverRecords_agrees (fuel : Nat) (E : C06.Env) (h : Store) (c : C06.Conn) (R : RelConn E h c)
+    (hcb : ∀ d ∈ c.app.waiting, d.cb = none) (hf : c.app.inbound.length + 2 ≤ fuel) :
+    let o := exec fuel (envT E) tbl_Connection "_deliverRecords" [] h
+    let m := C06.settle c.app [.deliver]
+    RelConn E o.heap { c with app := m } ∧
+    o.calls.map absTCall = (m.log.drop c.app.log.length).map some ∧ o.exc = none := by
+  obtain ⟨g, rfl⟩ : ∃ g, fuel = g + 2 := ⟨fuel - 2, by omega⟩
+  obtain ⟨hb, hsn, hrn, hsb, hrb, htr, hin, hw, hc⟩ := R
+  intro o m
+  simp only [o, m, exec]
+  rw [callM]
+  simp only [tbl_Connection, deliver_shape, List.length_nil, if_true, bindParams, List.zip_nil_right, List.foldl_nil]
+  simp only [execB, execS, andThen]
+  have L := deliver_loop (envT E) rfl rfl (callM (envT E) tbl_Connection (g + 1)) (g + 2) c.app.inbound c.app.waiting
+    (g + 2) h [] [] c.app rfl rfl hcb hin hw (by omega)
+  simp only at L
+  generalize whileLoop _ _ _ _ = w at L ⊢
+  obtain ⟨⟨h1, l1, cs1⟩, fl⟩ := w
+  obtain ⟨e1, e2, e3, e4, ⟨evs, e5, e5'⟩, e6⟩ := L
+  simp only at e1 e2 e3 e4 e5' 
+  subst e1
+  simp only [e5, List.drop_left, List.map_nil, List.nil_append] at e5' ⊢
+  refine ⟨⟨?_, ?_, ?_, ?_, ?_, ?_, e2, e3, ?_⟩, e5', trivial⟩
+  · rw [e4 _ (by decide) (by decide)]; exact hb
+  · rw [e4 _ (by decide) (by decide)]; exact hsn
+  · rw [e4 _ (by decide) (by decide)]; exact hrn
+  · rw [e4 _ (by decide) (by decide)]; exact hsb
+  · rw [e4 _ (by decide) (by decide)]; exact hrb
+  · rw [e4 _ (by decide) (by decide)]; exact htr
+  · show RelCons h1 (C06.settle c.app [.deliver]).consumer
+    rw [e6]
+    cases hcc : c.app.consumer with
+    | none => rw [hcc] at hc; exact ⟨by rw [e4 _ (by decide) (by decide)]; exact hc.1, by rw [e4 _ (by decide) (by decide)]; exact hc.2⟩
+    | some k =>
+      rw [hcc] at hc
+      exact ⟨by rw [e4 _ (by decide) (by decide)]; exact hc.1, by rw [e4 _ (by decide) (by decide)]; exact hc.2.1,
+        by rw [e4 _ (by decide) (by decide)]; exact hc.2.2.1, by rw [e4 _ (by decide) (by decide)]; exact hc.2.2.2⟩
+
 /-! ## non-vacuity: a concrete heap in the relation, and concrete runs of the generated bodies -/
 
 /-- a toy box (16 bytes of tag appended; opens anything long enough) and a toy HKDF (key ‖ CTXinfo) -/
@@ -188,11 +400,42 @@ example : let o := exec 3 (envT toyE) tbl_Connection "send_record" [.bytes [104,
     o.calls.map absTCall = [some (.tx [0, 0, 0, 42]), some (.tx (C06.beFixed 24 5 ++ [104, 105] ++ List.replicate 16 7))] ∧
       natOf (o.heap.get "send_nonce") = 6 ∧ o.exc = none := by decide
 
+
+/-- consumer mode: 3 of 5 expected bytes written, a 2-byte record arrives: write, unregister, Deferred fired with 5 -/
+def demoConsHeap : Store :=
+  [("buf", .bytes []), ("send_nonce", .int 5), ("next_receive_nonce", .int 0),
+   ("send_box", boxVal (C06.senderRecordKey toyE true)), ("receive_box", boxVal (C06.receiverRecordKey toyE true)),
+   ("transport", .ref "Transport" 0), ("_inbound_records", .list []),
+   ("_waiting_reads", .list [.ref "Deferred" 3, .ref "Deferred" 4]),
+   ("_consumer", .ref "Consumer" 0), ("_consumer_bytes_written", .int 3), ("_consumer_bytes_expected", .int 5),
+   ("_consumer_deferred", .ref "ConsumerDeferred" 0), ("_negotiation_d", .none)]
+
+example : let o := exec 5 (envT toyE) tbl_Connection "recordReceived" [.bytes [8, 9]] demoConsHeap
+    o.calls.map absTCall = [some (.cwrite [8, 9]), some .unreg, none] ∧
+      o.calls.map (·.meth) = ["write", "unregisterProducer", "callback"] ∧
+      natOf (o.heap.get "_consumer_bytes_written") = 5 ∧ o.exc = none := by decide
+
+/-- `close()` with two reads waiting: loseConnection, then both failed in order -/
+example : let o := exec 5 (envT toyE) tbl_Connection "close" [] demoConsHeap
+    o.calls.map (·.meth) = ["loseConnection", "errback", "errback"] ∧
+      bytesOf (o.heap.get "_waiting_reads") = [] ∧ o.exc = none := by decide
+
+/-- two queued records, two reads waiting: paired oldest-with-oldest -/
+example : let o := exec 6 (envT toyE) tbl_Connection "_deliverRecords" []
+                     (demoConsHeap.set "_inbound_records" (.list [.bytes [1], .bytes [2], .bytes [3]]))
+    o.calls.map absTCall = [some (.assigned 3 [1]), some (.assigned 4 [2])] ∧
+      bytesOf (o.heap.get "_inbound_records") = [[3]] ∧ o.exc = none := by decide
+
 #print axioms all_translated
 #print axioms translated_pin
 #print axioms send_record_agrees
 #print axioms send_record_refuses_str
 #print axioms decrypt_record_agrees
 #print axioms dataReceivedRECORDS_agrees
+#print axioms writeToConsumer_agrees
+#print axioms recordReceived_consumer_agrees
+#print axioms close_agrees
+#print axioms connectionLost_agrees
+#print axioms deliverRecords_agrees
 
 end WV.Props.PyIRTrC06
